@@ -11,7 +11,7 @@
 //!
 //! Legs:
 //!  * `exh` (stream 1): catalogue of short streams; **all 2^(n−1) segmentations** for streams of
-//!    n ≤ 16 (thorough: 21) bytes, all single, double (and for n ≤ 64 triple) cuts beyond.
+//!    n ≤ 16 (thorough: 20) bytes, all single, double (and for n ≤ 64 triple) cuts beyond.
 //!  * `rnd` (stream 2): G-PDU random sequences of 1–8 PDUs (up to ~200 KiB) × segmentation kinds
 //!    {whole, bytewise, per-PDU, PDU boundary ± d, inside every header, fixed k, k PDUs per read,
 //!    random sparse/dense} × {strict, non-strict, several maxima} × initial buffer capacities,
@@ -624,7 +624,7 @@ fn cuts_to_segs(cuts: &[usize], n: usize) -> Vec<usize> {
 
 fn leg_exh(cfg: &Cfg) -> (Local, Value) {
     let cat = catalogue();
-    let full_limit = if cfg.thorough() { 21 } else { 16 };
+    let full_limit = if cfg.thorough() { 20 } else { 16 };
     let mut pre = Local::new();
     let mut streams: Vec<(Vec<Pdu>, Arc<Vec<u8>>, Vec<usize>, bool)> = Vec::new();
     for seq in cat {
@@ -1078,6 +1078,26 @@ thread_local! {
         .expect("tokio runtime with io");
 }
 
+thread_local! {
+    /// one listening socket per worker thread (binding a fresh one per case exhausts the
+    /// ephemeral port range in long runs)
+    static LISTENER: std::cell::RefCell<Option<TcpListener>> = const { std::cell::RefCell::new(None) };
+}
+
+fn thread_listener() -> std::io::Result<TcpListener> {
+    LISTENER.with(|c| {
+        let mut c = c.borrow_mut();
+        if c.is_none() {
+            *c = Some(TcpListener::bind("127.0.0.1:0")?);
+        }
+        c.as_ref().unwrap().try_clone()
+    })
+}
+
+fn reset_thread_listener() {
+    LISTENER.with(|c| *c.borrow_mut() = None);
+}
+
 /// What the library side observed: Err(text) = could not even establish.
 type NetSeen = Result<Seen, String>;
 
@@ -1092,7 +1112,7 @@ fn is_timeout(path: &str, e: &AssocError) -> bool {
 
 #[allow(clippy::too_many_arguments)]
 fn net_case(flavour: u64, stream: Arc<Vec<u8>>, n_sent: usize, handshake_cuts: Arc<Vec<usize>>, pause_us: u64, timeouts: &mut u64) -> NetSeen {
-    let listener = TcpListener::bind("127.0.0.1:0").map_err(|e| format!("harness: bind: {}", e))?;
+    let listener = thread_listener().map_err(|e| format!("harness: bind: {}", e))?;
     let addr = listener.local_addr().map_err(|e| format!("harness: addr: {}", e))?;
     let stream_len = stream.len();
     let rd_to = Duration::from_secs(30);
@@ -1310,7 +1330,7 @@ const NET_KINDS: [&str; 7] = [
 ];
 
 fn leg_net(cfg: &Cfg) -> Local {
-    let n = cfg.n(3_000, 60_000);
+    let n = cfg.n(3_000, 16_000);
     run_parallel(
         cfg,
         3,
@@ -1423,6 +1443,7 @@ fn leg_net(cfg: &Cfg) -> Local {
                     mk_replay(None, ""),
                 ),
                 Ok(Err(e)) if e.starts_with("harness:") => {
+                    reset_thread_listener();
                     l.count("net_harness_errors_not_judged", 1);
                     l.note(format!("loopback setup problem, case not judged: {}", e));
                 }
@@ -1466,14 +1487,21 @@ pub fn run(cfg: &Cfg) -> Outcome {
     if want("rnd") {
         local.merge(leg_rnd(cfg));
     }
+    let mut net_problem = None;
     if want("net") {
-        local.merge(leg_net(cfg));
+        let ln = leg_net(cfg);
+        let judged = ln.counters.get("net_connection_closed_at_end").copied().unwrap_or(0) + ln.violations.values().map(|v| v.count).sum::<u64>();
+        if cfg.only_case.is_none() && judged < 500 {
+            net_problem = Some(format!("only {} loopback association cases could be judged (floor 500)", judged));
+        }
+        local.merge(ln);
     }
     let mut o = Outcome::new(
         local,
-        "public read_pdu_from_wire (scripted Read) and read_pdu_from_wire_async (scripted AsyncRead with self-waking Pending, inside tokio current-thread / multi-thread runtimes), one shared BytesMut per stream: received PDU list = sent list, no error before the stream is exhausted, ConnectionClosed exactly at the end with an empty buffer. exh: catalogue of short streams (1–8 PDUs), all 2^(n−1) segmentations for n ≤ 16 (thorough 21) bytes, all 1/2/3-cut tuples beyond; rnd: G-PDU sequences of 1–8 PDUs × 11 segmentation kinds × strict/non-strict × maxima × initial capacities × Pending patterns, 1/12 with a truncated last PDU; net: real Client/Server associations (sync + async) over loopback against a scripted raw-socket peer that coalesces/splits the handshake PDU with the following 1–6 PDUs (7 write scripts). class = (leg, segmentation kind, #PDUs, stream size, mode / PDU kinds)",
+        "public read_pdu_from_wire (scripted Read) and read_pdu_from_wire_async (scripted AsyncRead with self-waking Pending, inside tokio current-thread / multi-thread runtimes), one shared BytesMut per stream: received PDU list = sent list, no error before the stream is exhausted, ConnectionClosed exactly at the end with an empty buffer. exh: catalogue of short streams (1–8 PDUs), all 2^(n−1) segmentations for n ≤ 16 (thorough 20) bytes, all 1/2/3-cut tuples beyond; rnd: G-PDU sequences of 1–8 PDUs × 11 segmentation kinds × strict/non-strict × maxima × initial capacities × Pending patterns, 1/12 with a truncated last PDU; net: real Client/Server associations (sync + async) over loopback against a scripted raw-socket peer that coalesces/splits the handshake PDU with the following 1–6 PDUs (7 write scripts). class = (leg, segmentation kind, #PDUs, stream size, mode / PDU kinds)",
     );
     o.extra = extra;
+    o.inconclusive = net_problem;
     if cfg.only_case.is_none() && leg.is_none() {
         o.min_evaluations = 100_000;
         o.min_classes = 150;
